@@ -18,8 +18,10 @@ import (
 	"fmt"
 	"math"
 	"math/big"
+	"os"
 	"runtime/debug"
 	"sort"
+	"strconv"
 	"strings"
 	"sync"
 	"testing"
@@ -222,6 +224,7 @@ var canary struct {
 
 func startCanary() {
 	canary.once.Do(func() {
+		go stallSampler()
 		go func() {
 			const step = 5 * time.Millisecond
 			for {
@@ -239,6 +242,114 @@ func startCanary() {
 			}
 		}()
 	})
+}
+
+// Second load detector: the kernel's per-thread run-queue wait times
+// (/proc/self/task/*/schedstat).  The canary only sees delays of its own
+// goroutine; a single OS thread that is kept off the CPU while it runs the
+// strategy (or the goroutine that measures the return time) is invisible to it.
+// A thread that spent at least 80 % of consecutive sampling intervals waiting
+// for a CPU, for stallMs or longer, is recorded as a stall.
+
+const stallMs = 60
+
+type stallEvent struct{ from, to time.Time }
+
+var stalls struct {
+	mu         sync.Mutex
+	events     []stallEvent
+	lastSample time.Time
+	working    bool // /proc is readable
+}
+
+func readRunDelays() map[string]uint64 {
+	ents, err := os.ReadDir("/proc/self/task")
+	if err != nil {
+		return nil
+	}
+	m := make(map[string]uint64, len(ents))
+	for _, e := range ents {
+		b, err := os.ReadFile("/proc/self/task/" + e.Name() + "/schedstat")
+		if err != nil {
+			continue
+		}
+		f := strings.Fields(string(b))
+		if len(f) < 2 {
+			continue
+		}
+		if v, err := strconv.ParseUint(f[1], 10, 64); err == nil {
+			m[e.Name()] = v
+		}
+	}
+	return m
+}
+
+func stallSampler() {
+	prev := readRunDelays()
+	last := time.Now()
+	streak := map[string]time.Time{} // thread -> start of its current starvation streak
+	for {
+		time.Sleep(20 * time.Millisecond)
+		now := time.Now()
+		cur := readRunDelays()
+		interval := now.Sub(last)
+		for tid, rd := range cur {
+			p, ok := prev[tid]
+			if !ok {
+				continue
+			}
+			if float64(rd-p) >= 0.8*float64(interval) {
+				if _, in := streak[tid]; !in {
+					streak[tid] = last
+				}
+				if now.Sub(streak[tid]) >= stallMs*time.Millisecond {
+					stalls.mu.Lock()
+					stalls.events = append(stalls.events, stallEvent{streak[tid], now})
+					if len(stalls.events) > 8192 {
+						stalls.events = append([]stallEvent(nil), stalls.events[4096:]...)
+					}
+					stalls.mu.Unlock()
+				}
+			} else {
+				delete(streak, tid)
+			}
+		}
+		for tid := range streak {
+			if _, ok := cur[tid]; !ok {
+				delete(streak, tid)
+			}
+		}
+		stalls.mu.Lock()
+		stalls.lastSample, stalls.working = now, len(cur) > 0
+		stalls.mu.Unlock()
+		prev, last = cur, now
+	}
+}
+
+// stalledDuring waits until the sampler has looked at the whole window (the
+// sampler itself may be the thread that is kept waiting) and reports whether a
+// stall overlaps it.
+func stalledDuring(from, to time.Time) bool {
+	for wait := 0; ; wait++ {
+		stalls.mu.Lock()
+		seen := stalls.lastSample.After(to)
+		stalls.mu.Unlock()
+		if seen {
+			break
+		}
+		if wait > 600 {
+			return true // sampler not running for 3 s: certainly not a quiet machine
+		}
+		time.Sleep(5 * time.Millisecond)
+	}
+	stalls.mu.Lock()
+	defer stalls.mu.Unlock()
+	for _, e := range stalls.events {
+		if e.to.After(from) && e.from.Before(to) {
+			return true
+		}
+	}
+	return false
 }
 
 func canaryMaxMs(from, to time.Time) float64 {
@@ -267,6 +378,7 @@ type observation struct {
 	Nodes    []nodeObs
 	CanaryMs float64
 	Stuck    bool // node doubles did not finish (harness watchdog)
+	Stalled  bool // an OS thread of this process was kept off the CPU during the case
 }
 
 func run(c *Case) *observation {
@@ -343,7 +455,9 @@ func run(c *Case) *observation {
 	w.mu.Lock()
 	o.Nodes = append([]nodeObs(nil), w.obs...)
 	w.mu.Unlock()
-	o.CanaryMs = canaryMaxMs(begin, time.Now())
+	end := time.Now()
+	o.CanaryMs = canaryMaxMs(begin, end)
+	o.Stalled = stalledDuring(begin, end)
 	return o
 }
 
@@ -443,7 +557,7 @@ func judge(c *Case, o *observation) verdict {
 	S := H / 2
 	n := len(c.Nodes)
 	rs, perturbed := responses(c, o)
-	v.Perturbed = perturbed || o.CanaryMs > perturbMs || o.Stuck
+	v.Perturbed = perturbed || o.CanaryMs > perturbMs || o.Stuck || o.Stalled
 	fail := func(sig, format string, args ...any) verdict {
 		if v.Sig == "" {
 			v.Sig = c.Strategy + ":" + sig
